@@ -22,8 +22,15 @@
 
   `Cfg` carries the facts that tie A re-extracts from the source on every run:
     sendLocked  sendDirect holds the send lock from before makeData until after Flush
-    bgLocked    process() calls Connect while holding the send lock.
-                (false in the code as found — candidate defect D42; true after fix-D42)
+    bgLocked    process() calls Connect while holding the send lock        (false as found: D42)
+    procLocked  process() holds the send lock while it sends and flushes an item   (false as found: D70)
+    acLocked    ApplyConfig closes and re-dials while holding the send lock   (false as found: D70)
+    rearm       send() arms the write deadline before every write (true in the code)
+
+  The queue component is C11's sequential model of RequestQueue (`Golib.Queue.Seq`): `enqueue`,
+  `enqueueFail`, `dequeue` and `setCapacity` are `Queue.step` on `(queue, qcap)` with the operations
+  `put`, `getNoWait`, `setCapacity`; send ids start at 1 because the queue API uses 0 (nil) for
+  "nothing".  Time is a counter `now` advanced by `tick`; a write needs `now ≤ deadline` of its writer.
 
   Frames are opaque: `bytesOf sid` is the frame of send `sid` (Golib.Tcp.Frame gives the layout).
   Connections and their buffered writers are numbered in the order they are created; writer `w`
@@ -32,6 +39,7 @@
   (core Lean only — the driver links against this file.)
 -/
 import Golib.Basic
+import Golib.Queue.Seq
 
 namespace Tcp
 
@@ -98,9 +106,11 @@ end AMap
 
 structure Cfg where
   useQueue : Bool
-  cap : Nat
   sendLocked : Bool
   bgLocked : Bool
+  procLocked : Bool
+  acLocked : Bool
+  rearm : Bool
   deriving DecidableEq, Repr
 
 inductive Pc where
@@ -120,17 +130,20 @@ inductive Pc where
   | bgDial
   /-- sender only: result known, `Unlock` is next -/
   | done (sid : Nat) (ok : Bool)
+  /-- inside ApplyConfig, between its Close() and its Connect() -/
+  | reconf
   deriving DecidableEq, Repr
 
 instance : Inhabited Pc := ⟨.idle⟩
 
 structure St where
   next : Nat := 0                      -- connections / writers created so far
-  nsid : Nat := 0                      -- sends handed so far
+  nsid : Nat := 1                      -- next send id (0 is the queue's "nothing")
   conn : Option Nat := none            -- this.conn
   wr : Option Nat := none              -- this.wr
   lock : Option Nat := none            -- holder of oneWayClientSendLock
-  queue : List Nat := []               -- RequestQueue
+  queue : List Nat := []               -- RequestQueue: items
+  qcap : Int := 0                      -- RequestQueue: capacity (≤ 0: unbounded)
   pcs : AMap Pc := []
   sentRev : AMap Bytes := []           -- bytes the kernel took on connection c, newest first
   buf : AMap Bytes := []               -- bufio buffer of writer w
@@ -140,6 +153,9 @@ structure St where
   cut : AMap (Option Nat) := []        -- peer closed connection c having received that many bytes
   handed : List Nat := []              -- ghost: acceptance order (lock order / enqueue order)
   results : List (Nat × Bool) := []    -- ghost: (sid, Send returned nil), newest first
+  now : Nat := 0                       -- time
+  timeout : Nat := 60000               -- this.Timeout
+  deadline : AMap Nat := []            -- write deadline of connection c
 
 def St.pc (s : St) (t : Nat) : Pc := s.pcs.get t
 def St.setPc (s : St) (t : Nat) (p : Pc) : St := { s with pcs := s.pcs.set t p }
@@ -150,6 +166,9 @@ def St.delivered (s : St) (c : Nat) : Bytes :=
   | some n => (s.sent c).take n
   | none => s.sent c
 
+/-- the RequestQueue as C11 models it -/
+def St.q (s : St) : Queue.Q := ⟨s.queue, s.qcap⟩
+
 /-- the kernel takes the first `k` buffered bytes of writer `w` -/
 def St.push (s : St) (w k : Nat) : St :=
   { s with sentRev := s.sentRev.set w (((s.buf.get w).take k).reverse ++ s.sentRev.get w),
@@ -157,34 +176,41 @@ def St.push (s : St) (w k : Nat) : St :=
 
 def St.setErr (s : St) (w : Nat) : St := { s with err := s.err.set w true }
 
-/-- a fresh connection with its buffered writer becomes current -/
+/-- a fresh connection with its buffered writer becomes current (its deadline: one timeout from now) -/
 def St.connectNew (s : St) : St :=
-  { s with conn := some s.next, wr := some s.next, next := s.next + 1 }
+  { s with conn := some s.next, wr := some s.next, next := s.next + 1,
+           deadline := s.deadline.set s.next (s.now + s.timeout) }
 
 inductive Act where
   | lockSend (t sid : Nat)       -- Lock + makeData
   | connectOk (t : Nat)
   | connectFail (t : Nat)
-  | writeBegin (t : Nat)         -- wr.Write starts on the current writer
+  | writeBegin (t : Nat)         -- (deadline armed) wr.Write starts on the current writer
   | writeSticky (t : Nat)        -- wr.Write returns the writer's sticky error at once
   | writeChunk (t n : Nat)       -- n more bytes copied into the buffer
   | writeEnd (t : Nat)
   | autoFlush (t k : Nat)        -- buffer full inside Write: k bytes go out
   | autoFlushErr (t k : Nat)     -- … and the write fails after k bytes
   | flushOk (t : Nat)
-  | flushErr (t k : Nat)         -- k bytes go out, then the error
+  | flushErr (t k : Nat)         -- k bytes go out, then the error (reset, timeout, …)
   | close (t : Nat)
   | flushAfterFail               -- process(): Flush after a failed send (result ignored)
   | unlock (t : Nat)
-  | enqueue (t sid : Nat)
-  | enqueueFail (t sid : Nat)
-  | dequeue                      -- GetTimeout returns the head + makeData
+  | enqueue (t sid : Nat)        -- Queue.Put accepted
+  | enqueueFail (t sid : Nat)    -- Queue.Put refused: "Enqueue Failed"
+  | dequeue                      -- GetTimeout returns the head (+ Lock if procLocked) + makeData
   | bgConnectOk                  -- process(): Connect at loop top (atomic: under the lock / sole owner)
   | bgConnectFail
   | bgCheck                      -- process(), bgLocked = false: `conn == nil` seen
   | bgDialOk                     -- … and later conn, wr assigned
   | bgDialFail
   | peerClose (c n : Nat)
+  | setCapacity (c : Int)        -- Queue.SetCapacity (constructor option / ApplyConfig)
+  | setTimeout (n : Nat)         -- this.Timeout = … (ApplyConfig)
+  | reconfClose (t : Nat)        -- ApplyConfig, license/servers changed: (Lock if acLocked) Close()
+  | reconfDialOk (t : Nat)       -- … Connect() succeeded (Unlock if acLocked)
+  | reconfDialFail (t : Nat)
+  | tick (d : Nat)               -- time passes
   deriving DecidableEq, Repr
 
 /-- the result of a finished `send()+Flush()` of thread `t` -/
@@ -193,6 +219,10 @@ def St.finish (s : St) (t sid : Nat) (ok : Bool) : St :=
     -- process(): errors are not reported; a failed Flush closes the connection
     if ok then s.setPc 0 .idle else { s with conn := none }.setPc 0 .idle
   else s.setPc t (.done sid ok)
+
+/-- process() releases the send lock at the end of an item, if it took it -/
+def St.procRel (s : St) (locked : Bool) (t : Nat) : St :=
+  { s with lock := if t = 0 ∧ locked = true then none else s.lock }
 
 variable (cfg : Cfg) (bytesOf : Nat → Bytes)
 
@@ -213,7 +243,8 @@ def step (s : St) : Act → Option St
     match s.pc t, s.wr with
     | .made sid, some w =>
       if s.conn ≠ none ∧ s.err.get w = false then
-        some ({ s with log := s.log.set w (s.log.get w ++ [sid]), pend := s.pend.set w (bytesOf sid) }.setPc t
+        some ({ s with log := s.log.set w (s.log.get w ++ [sid]), pend := s.pend.set w (bytesOf sid),
+                       deadline := s.deadline.set w (if cfg.rearm = true then s.now + s.timeout else s.deadline.get w) }.setPc t
           (.writing sid w (bytesOf sid)))
       else none
     | _, _ => none
@@ -236,7 +267,8 @@ def step (s : St) : Act → Option St
     | _ => none
   | .autoFlush t k =>
     match s.pc t with
-    | .writing _ w _ => if k ≤ (s.buf.get w).length then some (s.push w k) else none
+    | .writing _ w _ =>
+      if k ≤ (s.buf.get w).length ∧ s.now ≤ s.deadline.get w then some (s.push w k) else none
     | _ => none
   | .autoFlushErr t k =>
     match s.pc t with
@@ -246,13 +278,15 @@ def step (s : St) : Act → Option St
   | .flushOk t =>
     match s.pc t, s.wr with
     | .wrote sid _, some w =>
-      if s.err.get w = false then some ((s.push w (s.buf.get w).length).finish t sid true) else none
+      if s.err.get w = false ∧ s.now ≤ s.deadline.get w then
+        some (((s.push w (s.buf.get w).length).finish t sid true).procRel cfg.procLocked t)
+      else none
     | _, _ => none
   | .flushErr t k =>
     match s.pc t, s.wr with
     | .wrote sid _, some w =>
       if k ≤ (s.buf.get w).length ∧ (s.err.get w = true → k = 0) ∧ (s.err.get w = false → k < (s.buf.get w).length) then
-        some (((s.push w k).setErr w).finish t sid false)
+        some ((((s.push w k).setErr w).finish t sid false).procRel cfg.procLocked t)
       else none
     | _, _ => none
   | .close t =>
@@ -262,25 +296,32 @@ def step (s : St) : Act → Option St
     | _ => none
   | .flushAfterFail =>
     match s.pc 0 with
-    | .afterFail _ => some (s.setPc 0 .idle)
+    | .afterFail _ => some ((s.setPc 0 .idle).procRel cfg.procLocked 0)
     | _ => none
   | .unlock t =>
     match s.pc t with
     | .done sid ok =>
-      some ({ s with lock := none, results := (sid, ok) :: s.results }.setPc t .idle)
+      if t ≠ 0 then some ({ s with lock := none, results := (sid, ok) :: s.results }.setPc t .idle) else none
     | _ => none
   | .enqueue t sid =>
-    if t ≠ 0 ∧ cfg.useQueue = true ∧ s.pc t = .idle ∧ sid = s.nsid ∧ (cfg.cap = 0 ∨ s.queue.length < cfg.cap) then
-      some { s with queue := s.queue ++ [sid], nsid := s.nsid + 1, handed := s.handed ++ [sid],
+    if t ≠ 0 ∧ cfg.useQueue = true ∧ s.pc t = .idle ∧ sid = s.nsid ∧
+        (Queue.step s.q (.put sid)).2.1 = .bool true then
+      some { s with queue := (Queue.step s.q (.put sid)).1.items, nsid := s.nsid + 1, handed := s.handed ++ [sid],
                     results := (sid, true) :: s.results }
     else none
   | .enqueueFail t sid =>
-    if t ≠ 0 ∧ cfg.useQueue = true ∧ s.pc t = .idle ∧ sid = s.nsid then
-      some { s with nsid := s.nsid + 1, results := (sid, false) :: s.results }
+    if t ≠ 0 ∧ cfg.useQueue = true ∧ s.pc t = .idle ∧ sid = s.nsid ∧
+        (Queue.step s.q (.put sid)).2.1 = .bool false then
+      some { s with queue := (Queue.step s.q (.put sid)).1.items, nsid := s.nsid + 1,
+                    results := (sid, false) :: s.results }
     else none
   | .dequeue =>
-    match s.pc 0, s.queue with
-    | .idle, sid :: q => some ({ s with queue := q }.setPc 0 (.made sid))
+    match s.pc 0, (Queue.step s.q .getNoWait).2.1 with
+    | .idle, .val sid =>
+      if sid ≠ 0 ∧ (cfg.procLocked = true → s.lock = none) then
+        some ({ s with queue := (Queue.step s.q .getNoWait).1.items,
+                       lock := if cfg.procLocked = true then some 0 else s.lock }.setPc 0 (.made sid))
+      else none
     | _, _ => none
   | .bgConnectOk =>
     if cfg.bgLocked = true ∧ s.pc 0 = .idle ∧ s.lock = none ∧ s.conn = none then some s.connectNew else none
@@ -294,6 +335,21 @@ def step (s : St) : Act → Option St
     if s.pc 0 = .bgDial then some (s.setPc 0 .idle) else none
   | .peerClose c n =>
     if s.cut.get c = none ∧ n ≤ (s.sentRev.get c).length then some { s with cut := s.cut.set c (some n) } else none
+  | .setCapacity c => some { s with qcap := (Queue.step s.q (.setCapacity c)).1.cap }
+  | .setTimeout n => some { s with timeout := n }
+  | .reconfClose t =>
+    if t ≠ 0 ∧ s.pc t = .idle ∧ (cfg.acLocked = true → s.lock = none) then
+      some ({ s with conn := none, lock := if cfg.acLocked = true then some t else s.lock }.setPc t .reconf)
+    else none
+  | .reconfDialOk t =>
+    if s.pc t = .reconf then
+      some ({ s.connectNew with lock := if cfg.acLocked = true then none else s.lock }.setPc t .idle)
+    else none
+  | .reconfDialFail t =>
+    if s.pc t = .reconf then
+      some ({ s with lock := if cfg.acLocked = true then none else s.lock }.setPc t .idle)
+    else none
+  | .tick d => some { s with now := s.now + d }
 
 def run : List Act → St → Option St
   | [], s => some s
